@@ -73,6 +73,11 @@ type Checked struct {
 
 // Check parses (with comments) and type-checks the given files as package `path`.
 func (w *World) Check(path string, files map[string]string) (*Checked, error) {
+	return w.CheckMode(path, files, parser.ParseComments)
+}
+
+// CheckMode is Check with the given parser mode (e.g. parser.SkipObjectResolution).
+func (w *World) CheckMode(path string, files map[string]string, mode parser.Mode) (*Checked, error) {
 	fset := token.NewFileSet()
 	var names []string
 	for n := range files {
@@ -81,7 +86,7 @@ func (w *World) Check(path string, files map[string]string) (*Checked, error) {
 	sort.Strings(names)
 	var afs []*ast.File
 	for _, n := range names {
-		f, err := parser.ParseFile(fset, n, files[n], parser.ParseComments)
+		f, err := parser.ParseFile(fset, n, files[n], mode)
 		if err != nil {
 			return nil, err
 		}
